@@ -23,6 +23,28 @@ enum Probe {
     LdInd(u8, u32),
     /// ld_abs after a call to an ABI-legal helper that overwrites every caller-saved register
     LdAbsAfterHelper(u8, u32),
+    /// the program keeps values in its stack (top and bottom slot) and in r6 across a call to a
+    /// helper that runs ANOTHER VM's interpreter, whose program overwrites its own whole stack:
+    /// "a private 512-byte stack" must stay private
+    NestedRun,
+}
+
+/// helper #2 of the NestedRun probe: interprets a program that fills its 512-byte stack
+pub fn nested_run_helper(_a: u64, _b: u64, _c: u64, _d: u64, _e: u64) -> u64 {
+    let mut v: Vec<Insn> = Vec::new();
+    for k in 1..=64i16 {
+        v.push(Insn::new(STDW, 10, 0, -8 * k, 0x0bad_f00d));
+    }
+    v.push(Insn::new(MOV64_IMM, 0, 0, 0, 5));
+    v.push(Insn::new(EXIT, 0, 0, 0, 0));
+    let prog = encode_prog(&v);
+    let saved = hooks::save();
+    let r = match Vm::new(Kind::NoData, Some(&prog), (0, 8)) {
+        Ok(mut vm) => vm.exec((std::ptr::null_mut(), 0), (std::ptr::null_mut(), 0)).unwrap_or(99),
+        Err(_) => 98,
+    };
+    hooks::restore(saved);
+    r
 }
 
 fn big_load(v: &mut Vec<Insn>, dst: u8, base: u8, off: usize) {
@@ -46,6 +68,18 @@ fn probe_prog(p: Probe, offs: (usize, usize)) -> Vec<u8> {
             big_load(&mut v, 2, 1, offs.0);
             big_load(&mut v, 0, 1, offs.1);
             v.push(Insn::new(SUB64_REG, 0, 2, 0, 0));
+        }
+        Probe::NestedRun => {
+            v.push(Insn::new(STDW, 10, 0, -8, 0x1234_abcd));
+            v.push(Insn::new(STDW, 10, 0, -512, 0x55aa));
+            v.push(Insn::new(MOV64_IMM, 6, 0, 0, 0x777));
+            v.push(Insn::new(CALL, 0, 0, 0, 2));
+            v.push(Insn::new(MOV64_REG, 7, 0, 0, 0)); // 5 from the helper
+            v.push(Insn::new(LDXDW, 0, 10, -8, 0));
+            v.push(Insn::new(LDXDW, 3, 10, -512, 0));
+            v.push(Insn::new(ADD64_REG, 0, 3, 0, 0));
+            v.push(Insn::new(ADD64_REG, 0, 6, 0, 0));
+            v.push(Insn::new(ADD64_REG, 0, 7, 0, 0));
         }
         Probe::StackTop => {
             v.push(Insn::new(STB, 10, 0, -1, 0x77));
@@ -158,8 +192,9 @@ pub fn run(a: &Args, rep: &mut Report) {
             }
         };
         let engine = engines[rng.below(engines.len() as u64) as usize];
-        let probe = match (kind, rng.below(12)) {
+        let probe = match (kind, rng.below(13)) {
             (_, 0) | (_, 1) => Probe::R1,
+            (_, 12) => Probe::NestedRun,
             (Kind::Fixed, 2) => Probe::FixedData,
             (Kind::Fixed, 3) => Probe::FixedEnd,
             (Kind::Fixed, 4) | (Kind::Fixed, 5) => Probe::FixedDiff,
@@ -198,6 +233,7 @@ pub fn run(a: &Args, rep: &mut Report) {
                 Vm::new(c.kind, Some(&prog), c.offs)?
             };
             vm.register_helper(1, crate::hlp::hostile(0))?;
+            vm.register_helper(2, nested_run_helper)?;
             match c.engine {
                 Engine::Jit => vm.jit_compile()?,
                 #[cfg(feature = "std")]
@@ -317,6 +353,7 @@ pub fn run(a: &Args, rep: &mut Report) {
                             if pl == 0 { continue } else { Ok(pa + pl as u64) }
                         }
                         Probe::FixedDiff => Ok(pl as u64),
+                        Probe::NestedRun => Ok(0x1234_abcd + 0x55aa + 0x777 + 5),
                         Probe::StackTop => Ok(0x77),
                         Probe::StackBottom => Ok(0x1234567),
                         Probe::StackAboveTop | Probe::StackBelowBottom => Err(()),
